@@ -12,6 +12,7 @@ import os
 import subprocess
 import sys
 
+from .. import c10_sites as sites
 from .. import core, wire
 from ..core import InfraError
 
@@ -147,7 +148,7 @@ def judge(c, res):
         return "terminated the interpreter (exit status %s)" % res["died"]
     if "oob" in res:
         return "reads outside a row: " + ("a row is not a tuple" if any(k != "t" for k in c.get("kinds", [])) else
-                                          "a row is shorter than the first row" if c["fn"] == "collect" else res["oob"])
+                                          "a row is shorter than the first row" if c["fn"] == "collect" else "an unchecked access leaves the object it indexes")
     if c["fn"] == "collect":
         if not well_formed_args(c):
             return None if "raises" in res else "a malformed argument did not raise a Python exception"
@@ -242,6 +243,172 @@ def run_unsafe(ctx, case):
              impl={"observed": what, "result": observed}, model="oob")
 
 
+
+# ----------------------------------------------------------------------------- the call-site layer
+
+
+def _seq_fails(case, clause_prefix=None):
+    """Run one session alone in a fresh worker; the violated clause (or None)."""
+    res = run_worker([case])[0]
+    obs = res.get("ok") if "ok" in res else res
+    if "raises" in res:
+        return None
+    v = sites.judge_seq(case, obs)
+    if v is None:
+        return None
+    return v if (clause_prefix is None or v[1][:40] == clause_prefix[:40]) else None
+
+
+def _shrink_seq(case, clause, budget=45):
+    """Drop steps (last to first), then rows of the frames, while the same clause still fails alone."""
+    cur = case
+    tries = 0
+    i = len(cur["steps"]) - 1
+    while i >= 0 and tries < budget:
+        cand = dict(cur, steps=cur["steps"][:i] + cur["steps"][i + 1 :])
+        tries += 1
+        if cand["steps"] and _seq_fails(cand, clause):
+            cur = cand
+        i -= 1
+    for k, st in enumerate(cur["steps"]):
+        if st["op"] == "frame" and len(st["rows"]) > 1:
+            j = len(st["rows"]) - 1
+            while j >= 0 and tries < budget:
+                rows = st["rows"][:j] + st["rows"][j + 1 :]
+                cand = dict(cur, steps=cur["steps"][:k] + [dict(st, rows=rows)] + cur["steps"][k + 1 :])
+                tries += 1
+                if _seq_fails(cand, clause):
+                    cur, st = cand, cand["steps"][k]
+                j -= 1
+    return cur
+
+
+def evaluate_sites(ctx, cases):
+    """Public-API cases (`pcollect`, `seq`) in one sacrificial worker; judged by the plain-Python definitions."""
+    if not cases:
+        return
+    results = run_worker(cases)
+    mlines, mrefs = [], []
+    verdicts = []
+    for i, (c, res) in enumerate(zip(cases, results)):
+        if c["fn"] == "pcollect":
+            ctx.case(c, nontrivial=bool(c["rows"]) and bool(c["cols"]))
+            ctx.hit("site:collect")
+            ctx.hit("site:collect:limit:" + _limit_class(c))
+            ctx.hit("site:collect:cols:" + c.get("ckind", "list") + (":by-name" if any(isinstance(x, str) for x in c["cols"]) else ":by-index"))
+            clause = sites.judge_pcollect(c, res)
+            verdicts.append(clause)
+            if clause is None and "died" not in res and all(len(r) == len(c["names"]) for r in c["rows"]):
+                mlines.append(sites.pcollect_model_line(c))
+                mrefs.append((i, res))
+        else:
+            obs = res.get("ok") if "ok" in res else res
+            ctx.case(c, nontrivial=True)
+            ctx.hit("site:seq:" + c.get("kind", "?"))
+            for st in c["steps"]:
+                ctx.hit("site:step:" + st["op"] + (":" + st.get("via", "ascii") if st["op"] == "display" else ""))
+            if "raises" in res:
+                raise InfraError("the worker could not run a session: %r -> %r" % (c, res))
+            ml = []
+            v = sites.judge_seq(c, obs, ml, ctx.hit)
+            verdicts.append(v)
+            if v is None:
+                for (_, line, ob) in ml:
+                    mlines.append(line)
+                    mrefs.append((i, ob))
+    seq_history = []
+    reported = {x.get("sig") for x in ctx.violations}
+    for c, res, v in zip(cases, results, verdicts):
+        clause = v if (v is None or isinstance(v, str)) else v[1]
+        if clause is not None:
+            if clause in reported:
+                ctx.hit("violation-dup:" + clause)
+                if c["fn"] == "seq":
+                    seq_history.append(c)
+                continue
+            reported.add(clause)
+        if c["fn"] == "pcollect":
+            if v is not None:
+                small = c
+                if "died" not in res:
+                    def still(cc, clause=v):
+                        try:
+                            if cc.get("ckind", "list") not in ("list", "tuple", "set", "single") or cc.get("fn") != "pcollect" \
+                                    or any(len(r) != len(cc["names"]) for r in cc["rows"]) or cc.get("via", "collect") not in ("collect", "getitem") \
+                                    or (cc.get("ckind") == "single" and len(cc["cols"]) != 1) or not isinstance(cc.get("lazy"), bool) \
+                                    or not all(isinstance(x, (int, str)) and not isinstance(x, bool) for x in cc["cols"]):
+                                return False
+                            return sites.judge_pcollect(cc, run_worker([cc])[0]) == clause
+                        except Exception:
+                            return False
+                    small = core.shrink(c, still, budget=25)
+                ctx.fail(small, v, impl=run_worker([small])[0] if small is not c else res, model=None)
+            continue
+        if v is not None:
+            alone = _seq_fails(c)
+            if alone is not None:
+                small = _shrink_seq(c, alone[1])
+                fin = _seq_fails(small) or alone
+                ctx.fail(small, fin[1], impl={"step": fin[0], "observed": run_worker([small])[0]}, model={"expected": fin[2]},
+                         detail="step %d of the session violates the clause; the session is self-contained (fresh interpreter)" % fin[0])
+            else:
+                # fails only after the sessions that ran before it in the same interpreter: replay them together
+                for back in (1, 3, 10, len(seq_history)):
+                    joined = {"fn": "seq", "kind": "history", "steps": [st for h in seq_history[-back:] for st in h["steps"]] + c["steps"]}
+                    w = _seq_fails(joined)
+                    if w is not None:
+                        ctx.fail(joined, w[1], impl={"step": w[0]}, model={"expected": w[2]},
+                                 detail="the last session fails only after the earlier ones ran in the same interpreter (state shared between calls)")
+                        break
+                else:
+                    ctx.fail(c, v[1], impl={"step": v[0]}, model={"expected": v[2]},
+                             detail="failed in the shared worker, not reproduced alone: depends on interpreter history")
+        seq_history.append(c)
+    if mlines:
+        mouts = ctx.model.batch(mlines)
+        for line, mo, (i, ob) in zip(mlines, mouts, mrefs):
+            if not mo.startswith("ok "):
+                raise InfraError("model rejected %r: %r" % (line[:200], mo))
+            if not sites.model_agrees(line, mo, ob):
+                ctx.disagree(cases[i], ob, wire.dec_all(mo[3:]), what="call-site model and implementation differ on " + line[:40])
+
+
+def _limit_class(c):
+    if c.get("via") == "getitem":
+        return "getitem"
+    if "limit" not in c:
+        return "absent"
+    l = c["limit"]
+    if l == "none":
+        return "none"
+    if isinstance(l, dict):
+        l = int(l["__int__"])
+    n = len(c["rows"])
+    return "negative" if l < 0 else "zero" if l == 0 else "inside" if l < n else "at-rowcount" if l == n else "beyond-c-int" if l >= 2**31 else "beyond"
+
+
+def run_sites(ctx):
+    from ..extractors import c10_sites as scan
+
+    found = scan.scan_call_sites(core.REPO)
+    ctx.note("call_sites", ["%s:%s %s -> %s(%s)" % (s["file"], s["line"], s["function"], s["kernel"], ", ".join(s["args"])) for s in found])
+    und = sites.undriven(found)
+    ctx.note("undriven_call_sites", ["%s:%s %s -> %s" % (s["file"], s["line"], s["function"], s["kernel"]) for s in und])
+    missing = [d for d in sorted(sites.DRIVEN) if not any((s["file"], s["function"], s["kernel"]) == d for s in found)]
+    ctx.note("driven_call_sites_not_found_in_source", ["%s %s -> %s" % d for d in missing])
+    dim = ctx.scale(2, 3)
+    ex = sites.exhaustive_public(dim)
+    for i in range(0, len(ex), 20000):
+        evaluate_sites(ctx, ex[i : i + 20000])
+    ctx.note("call_site_exhaustive_scope", "DataFrame.collect on all frames up to %dx%d (eager and lazy) x limits absent/None/-2..rows+2 x index vectors of length 0..2 over -1..width, single index, single/tuple/set names, unknown names, __getitem__ (%d cases)" % (dim, dim, len(ex)))
+    evaluate_sites(ctx, sites.boundary_public())
+    evaluate_sites(ctx, sites.random_public(ctx.rng, ctx.scale(2500, 60000)))
+    evaluate_sites(ctx, sites.seeded_corpus())
+    nseq = ctx.scale(2000, 40000)
+    for start in range(0, nseq, 3000):
+        evaluate_sites(ctx, [sites.random_seq(ctx.rng, "%d_%d" % (ctx.seed, start + k)) for k in range(min(3000, nseq - start))])
+
+
 # ----------------------------------------------------------------------------- generators
 
 
@@ -327,13 +494,19 @@ def run(ctx):
     evaluate(ctx, [{"fn": "collect", "rows": [[1, 2], [3, 4], [5]], "kinds": ["t", "t", "t"], "cols": [1], "limit": 2}])
     for w in UNSAFE_WITNESSES[: ctx.scale(2, 4)]:
         run_unsafe(ctx, w)
+    run_sites(ctx)
 
 
 def intensify(ctx):
     evaluate(ctx, random_cases(ctx.rng, 20000))
+    evaluate_sites(ctx, sites.random_public(ctx.rng, 5000))
+    evaluate_sites(ctx, [sites.random_seq(ctx.rng, "i%d_%d" % (ctx.seed, k)) for k in range(3000)])
 
 
 def replay(ctx, case):
+    if case.get("fn") in ("pcollect", "seq"):
+        evaluate_sites(ctx, [case])
+        return
     if case.get("fn") == "collect" and well_formed_args(case) and model_reads_outside(case):
         run_unsafe(ctx, case)
     else:
